@@ -18,6 +18,8 @@
 #include "libconfig.h"
 #include "parsectx.h"
 #include "scanctx.h"
+#include "strbuf.h"
+#include "strvec.h"
 #include "grammar.h"
 #include "scanner.h"
 
@@ -513,6 +515,29 @@ int main(int argc, char **argv)
       config_setting_t *p = at(w[1]); char *v = unhex(w[2], NULL);
       if (!p) printf("bad-op"); else { int r = config_setting_set_string(p, v); if (v) memset(v, 'Z', strlen(v)); printf("%d", r); }
       free(v);
+    }
+    /* ---- C03: the real strbuf / strvec functions driven directly; length/capacity (and end offset) after every operation ---- */
+    else if (OP("strbuf_seq", 2)) {
+      /* ops separated by ',': sN = append a string of N bytes, c = append a char, r = release */
+      strbuf_t b; char *tok, *save, *ops = strdup(w[1]); memset(&b, 0, sizeof b);
+      for (tok = strtok_r(ops, ",", &save); tok; tok = strtok_r(NULL, ",", &save)) {
+        if (tok[0] == 's') { size_t n = (size_t)atol(tok + 1); char *t = malloc(n + 1); memset(t, 'q', n); t[n] = 0; libconfig_strbuf_append_string(&b, t); free(t); }
+        else if (tok[0] == 'c') libconfig_strbuf_append_char(&b, 'z');
+        else if (tok[0] == 'r') { char *r = libconfig_strbuf_release(&b); free(r); }
+        if (b.string && strlen(b.string) != b.length) { printf("TERMINATOR-MISSING "); }
+        printf("%zu/%zu ", b.length, b.capacity);
+      }
+      free(libconfig_strbuf_release(&b)); free(ops); printf("end");
+    }
+    else if (OP("strvec_seq", 2)) {
+      /* ops: a = append, r = release (the vector is deleted and starts again) */
+      strvec_t v; const char *p; memset(&v, 0, sizeof v);
+      for (p = w[1]; *p; p++) {
+        if (*p == 'a') libconfig_strvec_append(&v, strdup("name"));
+        else if (*p == 'r') { const char **r = libconfig_strvec_release(&v); libconfig_strvec_delete(r); memset(&v, 0, sizeof v); }
+        printf("%zu/%zu/%ld ", v.length, v.capacity, v.strings ? (long)(v.end - v.strings) : 0L);
+      }
+      libconfig_strvec_delete(libconfig_strvec_release(&v)); printf("end");
     }
     /* ---- C01: a tree of <levels> nested lists or groups built through the API, written, read back ---- */
     else if (OP("c01deep", 3)) {
